@@ -169,6 +169,12 @@ func classify(run *hlib.Run, res *Result) {
 	if sc.Idempotent {
 		run.Count("idempotent")
 	}
+	if sc.Sync {
+		run.Count("sync-producer")
+	}
+	if sc.LatencyMs > 0 {
+		run.Count("broker-latency")
+	}
 	if retried > 0 {
 		run.Count("with-retries")
 	}
